@@ -67,8 +67,10 @@ theorem C02_height_monotone (g : GoodChain c ch top) (ops₁ ops₂ : List Op) :
 
 /-- **(b) No height is skipped, blocks are applied strictly in height order.**  The durable writes of every
 single step are, for the consecutive heights `h+1, h+2, …, h'` (old and new chain height) and in this order:
-state after `k`, block `k`, chain height `k`.  In particular the chain-height writes, the block saves (one
-`ExecuteTxs` call each) and the state writes of the step go through `h+1 … h'` one by one. -/
+**block `k`, state after `k`, chain height `k`** (the block is saved before the state that says it was
+applied, /repo 99e45dc).  In particular the chain-height writes, the block saves (one `ExecuteTxs` call each)
+and the state writes of the step go through `h+1 … h'` one by one, and the `i`-th applied block occupies the
+positions `3i, 3i+1, 3i+2` of the step's writes with the proposer's block, its state, its height. -/
 theorem C02_no_skip (g : GoodChain c ch top) (ops : List Op) (e : Ev) :
     let n := runOps c ch ops
     let r := deliver ch n e
@@ -76,10 +78,19 @@ theorem C02_no_skip (g : GoodChain c ch top) (ops : List Op) (e : Ev) :
     heightWrites r.2 = List.range' (n.store.height + 1) (r.1.store.height - n.store.height) ∧
     savedHeights r.2 = List.range' (n.store.height + 1) (r.1.store.height - n.store.height) ∧
     stateWrites r.2 = (List.range' (n.store.height + 1) (r.1.store.height - n.store.height)).map (stateAt c ch) ∧
-    r.2.length = 3 * (r.1.store.height - n.store.height) := by
+    r.2.length = 3 * (r.1.store.height - n.store.height) ∧
+    ∀ i, i < r.1.store.height - n.store.height →
+      ∃ b sb, ch (n.store.height + 1 + i) = some b ∧
+        sb.sh = b.sh ∧ sb.savedSig = b.sh.sig ∧ sb.data.txs = b.data.txs ∧
+        r.2[3 * i]? = some (.saveBlock (n.store.height + 1 + i) sb) ∧
+        r.2[3 * i + 1]? = some (.updateState (stateAt c ch (n.store.height + 1 + i))) ∧
+        r.2[3 * i + 2]? = some (.setHeight (n.store.height + 1 + i)) := by
   intro n r
   have a := (deliver_safe g (runOps_safe g ops) e).2
-  exact ⟨a.le, a.consecutive⟩
+  obtain ⟨c1, c2, c3, c4⟩ := a.consecutive
+  refine ⟨a.le, c1, c2, c3, c4, fun i hi => ?_⟩
+  obtain ⟨b, sb, x1, ⟨y1, y2, y3, _⟩, x3, x4, x5⟩ := a.order i hi
+  exact ⟨b, sb, x1, y1, y2, y3, x3, x4, x5⟩
 
 /-- a step never touches a block at or below the chain height -/
 theorem C02_committed_never_replaced (g : GoodChain c ch top) (ops : List Op) (e : Ev) (k : Nat)
